@@ -23,6 +23,18 @@ structure SecBuf where
   /-- what `load_data` would read from the stream for the current header
       (`none`: the bounds checks or the read fail) -/
   fileData : Option Bytes := none
+  -- the remaining section-header fields, as the getters return them (host values)
+  index : Nat := 0
+  name : Bytes := []
+  nameOff : BitVec 32 := 0
+  flags : BitVec 64 := 0
+  addr : BitVec 64 := 0
+  addrSet : Bool := false          -- is_address_set
+  offset : BitVec 64 := 0
+  link : BitVec 32 := 0
+  info : BitVec 32 := 0
+  addrAlign : BitVec 64 := 0
+  entSize : BitVec 64 := 0
   deriving Repr
 
 namespace SecBuf
